@@ -429,11 +429,8 @@ example : (Model.insert false exC 1 exE).st.rows = (Spec.insert false exC.rows 1
 
 /-- **text pin**: the generated functions this property's hand-written model describes have, in
     /repo today, exactly the text the model was written from (`Soa/Model/Pinned.lean`) -/
-theorem bodies_pinned :
-    Soa.Extracted.bodies.filter (fun r => Soa.Model.scopeOf r == "C01") =
-    Soa.Model.pinned.filter (fun r => Soa.Model.scopeOf r == "C01") := by decide +kernel
+theorem bodies_pinned : Soa.Extracted.bodies_C01 = Soa.Model.pinned_C01 := rfl
 
-theorem bodies_pinned_nonempty :
-    (Soa.Model.pinned.filter (fun r => Soa.Model.scopeOf r == "C01")).length ≥ 4 := by decide +kernel
+theorem bodies_pinned_nonempty : Soa.Model.pinned_C01.length ≥ 4 := by decide
 
 end Soa.C01
